@@ -177,7 +177,7 @@ def gen_program(rng, family="core", nfn=None):
         "accum": ["in", "in", "call", "call", "acc", "acc"],
         "accumlru": ["in", "in", "call", "call", "acc", "acc"],
         "churn": ["in", "in", "in", "call", "call", "intern", "intern", "intern", "rdint", "calli", "new", "fld"],
-        "mixed": ["in", "in", "call", "call", "cell", "new", "fld", "calls", "intern", "rdint", "acc"],
+        "mixed": ["in", "in", "call", "call", "cell", "new", "fld", "calls", "intern", "rdint", "acc", "untr", "spec", "calli"],
         "persist": ["in", "in", "call", "call"],
     }[family]
     fns = [None] * nfn
@@ -201,7 +201,7 @@ def gen_program(rng, family="core", nfn=None):
         spec = {
             "nv": nv, "nin": nin, "ncell": ncell, "callees": callees, "ops": ops_j,
             "p_leaf": 0.2, "exports": exports,
-            "sfams": [3, 3, 1] if family == "spec" else [1, 2],
+            "sfams": [3, 3, 1] if family == "spec" else ([1, 2, 3] if family == "mixed" else [1, 2]),
             "ikinds": [1, 1, 2, 3, 4] if family == "intern" else ([1, 1, 1, 1, 2, 2] if family == "churn" else [1, 2, 3, 4]),
             "nint": 5 if family == "churn" else 3,
             "nident": 3 if family in ("churn", "structcoll") else 2,
